@@ -247,9 +247,16 @@ def _run_solver(idx, solver, logic, options, formula, signaling_queue, ctrl_pipe
     from pysmt.environment import get_env
 
     Solver = get_env().factory.Solver
-    with Solver(name=solver, logic=logic, **options) as s:
-        s.add_assertion(formula)
+    try:
+        # A member that cannot be created is a failed member: it has
+        # to be reported, or the parent waits for it forever
+        s = Solver(name=solver, logic=logic, **options)
+    except Exception as ex:
+        signaling_queue.put((solver, ex))
+        return
+    with s:
         try:
+            s.add_assertion(formula)
             local_res = s.solve()
         except Exception as ex:
             signaling_queue.put((solver, ex))
